@@ -857,7 +857,7 @@ func (c *Conn) readNextFlightMsg(flightData []byte) (interface{}, error) {
 		if c.retransmitTimer.fired() {
 			// 重发当前飞行
 			if len(flightData) > 0 {
-				if _, err := c.pconn.WriteTo(flightData, c.remoteAddr); err != nil {
+				if _, err := c.writeFlight(flightData); err != nil {
 					return nil, err
 				}
 			}
@@ -876,7 +876,7 @@ func (c *Conn) readNextFlightMsg(flightData []byte) (interface{}, error) {
 			if _, ok := msg.(*clientHelloMsg); ok {
 				// 对端从 Flight 1/3 重传，我们重发 Flight 4
 				if len(flightData) > 0 {
-					if _, err := c.pconn.WriteTo(flightData, c.remoteAddr); err != nil {
+					if _, err := c.writeFlight(flightData); err != nil {
 						return nil, err
 					}
 				}
@@ -966,7 +966,7 @@ func (hs *serverHandshakeState) readFinished(out []byte) error {
 	for {
 		if c.retransmitTimer.fired() {
 			if len(flightData) > 0 {
-				c.pconn.WriteTo(flightData, c.remoteAddr)
+				c.writeFlight(flightData)
 			}
 			c.retransmitTimer.backoff()
 		}
